@@ -5,7 +5,7 @@
 (* exported with it), so "inside the closed box" is an exact integer comparison.                *)
 (* A box is [lo |-> <<..>>, hi |-> <<..>>] with 2 (x,y) or 3 (x,y,z) entries: a 2-entry box     *)
 (* ignores the elevation because the code zips coordinates with the extent columns and zip      *)
-(* stops at the shorter one (geoh5py/shared/utils.py:541, :517).                                *)
+(* stops at the shorter one (geoh5py/shared/utils.py:545, :512).                                *)
 EXTENDS Integers, Sequences, FiniteSets
 
 Min2(a, b) == IF a <= b THEN a ELSE b
@@ -20,12 +20,12 @@ CeilDiv(a, b) == 0 - ((0 - a) \div b)
 
 Dim(box) == Len(box.lo)
 
-\* utils.mask_by_extent, utils.py:541-542:  indices &= (lim[0] <= loc) & (loc <= lim[1])
+\* utils.mask_by_extent, utils.py:545-546:  indices &= (lim[0] <= loc) & (loc <= lim[1])
 \* open = TRUE is the named deviation "OpenBox" (strict comparisons), never the property.
 InAxis(c, lo, hi, open) == IF open THEN lo < c /\ c < hi ELSE lo <= c /\ c <= hi
 InBoxD(p, box, open) == \A a \in 1..Dim(box) : InAxis(p[a], box.lo[a], box.hi[a], open)
 InBox(p, box) == InBoxD(p, box, FALSE)
-\* utils.py:544  `if inverse: return ~indices` : the complementary test
+\* utils.py:548-549  `if inverse: return ~indices` : the complementary test
 QualifiesD(p, box, inverse, open) == InBoxD(p, box, open) # inverse
 Qualifies(p, box, inverse) == QualifiesD(p, box, inverse, FALSE)
 
@@ -33,7 +33,7 @@ Qualifies(p, box, inverse) == QualifiesD(p, box, inverse, FALSE)
 \* grid_object.py:131, Drillhole.extent drillhole.py:163)
 BBox(P) == [lo |-> [a \in 1..3 |-> SetMin({p[a] : p \in P})],
             hi |-> [a \in 1..3 |-> SetMax({p[a] : p \in P})]]
-\* utils.box_intersect, utils.py:511-516: per axis max(lo) > min(hi) => no intersection
+\* utils.box_intersect, utils.py:512-519: per axis max(lo) > min(hi) => no intersection
 \* (closed: boxes that only touch do intersect)
 Intersects(bb, box) ==
     \A a \in 1..Dim(box) : Max2(bb.lo[a], box.lo[a]) <= Min2(bb.hi[a], box.hi[a])
